@@ -212,6 +212,11 @@ func (a *asyncFifoRetryImpl) retry(ctx context.Context) (breakLoop bool) {
 			if errors.Is(err, storage.ErrUncertainResult) {
 				state = retryUnknownPut
 			}
+			if !errors.Is(err, storage.ErrCASFailed) {
+				// the rewrite neither succeeded nor lost against a newer write, so the original operation may
+				// still be the latest one without any event: keep it at the head and try again in next tick
+				return true
+			}
 		}
 	}
 
